@@ -1,6 +1,8 @@
 import CifModel.Lemmas.FillRun
 import CifModel.Lemmas.FillLines
 import CifModel.Lemmas.ScanBuf
+import CifModel.Lemmas.FillLexShift
+import CifModel.Props.C01
 /-
   Property C08 — parse results are independent of line-terminator style and buffer boundaries.
 
@@ -149,14 +151,104 @@ theorem C08_buffer_init : (SB.init ParseConsts.bufSizeInitial).Inv ∧ 2 * Parse
   refine ⟨⟨Nat.le_refl _, Nat.le_refl _, Nat.le_refl _, Nat.zero_le _, ?_⟩, by decide⟩
   simp [SB.init]
 
-/-- FULL statement of the third part of C08 (owned by the lexer group: it needs the token-level model `tokens`, the
-    scanner's reading of a unit stream as (type, text, line) triples): lengthening insignificant whitespace — inserting a
-    blank or a tab next to a blank, or an empty line after a line terminator — anywhere before a construct never changes
-    the tokens read after it, apart from their line numbers when an empty line was inserted. -/
-def C08_ws_lengthening_full (tokens : Str → List (Nat × Str × Nat)) : Prop :=
-  ∀ (pre suf : Str) (w : CU), (w = 32 ∨ w = 9) →
-    (tokens (pre ++ [32] ++ suf) = tokens (pre ++ [32, w] ++ suf)) ∧
-    ((tokens (pre ++ [10] ++ suf)).map (fun t => (t.1, t.2.1)) = (tokens (pre ++ [10, 10] ++ suf)).map (fun t => (t.1, t.2.1)))
+open Model.Lexer Model.Chars Spec.Lexical in
+/-- **C08, whitespace lengthening** (third part of the property; built on group gD's `C01_lex_sep` and on the line-shift
+    invariance of the lexer model, `tokensLoop_shift`).  The scanner stands in front of a separator `w` — any run of blanks,
+    tabs, line terminators and comments — followed by any remaining input `R`.  Replace the separator by ANY other
+    admissible run `w'` (in particular: `w` with whitespace atoms inserted anywhere) that ends in the same column and
+    `k` lines further down.  Then the whole token stream that follows is the same: same token types, same value texts, same
+    columns, every line number `k` higher; the parse returns the same value, and the reports are the same with line
+    numbers `k` higher — for every callback policy that does not itself look at line numbers (`polD k pol` is `pol` for
+    accept-all, die-on-first, reject-the-n-th, …).
+    (`hfit`: neither run contains an over-long line; `hfirst`: a comment cannot begin a run where whitespace is required;
+    `hcol`: the following token starts in the same column — lengthening the blanks in front of a token on the SAME line
+    moves it, which matters for `;` in column 1 and for the 2048-character limit; it is implied whenever both runs end
+    with the same atoms after their last terminator.) -/
+theorem C08_ws_lengthening (dia : Dialect) (w w' : List WsAtom) (R : Str) (line col k : Nat) (lt lt' : TokType)
+    (pol : Policy) (log : List Report) (fuel : Nat)
+    (hok : ∀ a ∈ w, a.ok dia = true) (hok' : ∀ a ∈ w', a.ok dia = true)
+    (hfit : linesFit col (renderWs w) = true) (hfit' : linesFit col (renderWs w') = true)
+    (hfirst : afterWsOf lt = true ∨ ∀ b rest, w ≠ WsAtom.comment b :: rest)
+    (hfirst' : afterWsOf lt = true ∨ ∀ b rest, w' ≠ WsAtom.comment b :: rest)
+    (hlt : afterWsOf lt' = (afterWsOf lt || !w.isEmpty)) (hlt' : afterWsOf lt' = (afterWsOf lt || !w'.isEmpty))
+    (hcol : (posAfter line col (renderWs w')).2 = (posAfter line col (renderWs w)).2)
+    (hline : (posAfter line col (renderWs w')).1 = (posAfter line col (renderWs w)).1 + k) :
+    (tokensLoop dia (polD k pol) (fuel + 1) ⟨renderWs w' ++ R, line, col, lt⟩ [] log).1
+        = (tokensLoop dia pol (fuel + 1) ⟨renderWs w ++ R, line, col, lt⟩ [] log).1.map (shTok k) ∧
+    (tokensLoop dia (polD k pol) (fuel + 1) ⟨renderWs w' ++ R, line, col, lt⟩ [] log).2.1
+        = (tokensLoop dia pol (fuel + 1) ⟨renderWs w ++ R, line, col, lt⟩ [] log).2.1 ∧
+    LogRel k log (tokensLoop dia pol (fuel + 1) ⟨renderWs w ++ R, line, col, lt⟩ [] log).2.2
+                 (tokensLoop dia (polD k pol) (fuel + 1) ⟨renderWs w' ++ R, line, col, lt⟩ [] log).2.2 := by
+  rw [tokensLoop_congr dia pol fuel _ _ [] log (C01_lex_sep dia w R line col lt lt' pol log hok hfit hfirst hlt)]
+  rw [tokensLoop_congr dia (polD k pol) fuel _ _ [] log
+        (C01_lex_sep dia w' R line col lt lt' (polD k pol) log hok' hfit' hfirst' hlt')]
+  rw [hcol, hline]
+  have h := tokensLoop_shift k dia pol log [] (fuel + 1)
+    ⟨R, (posAfter line col (renderWs w)).1, (posAfter line col (renderWs w)).2, lt'⟩ [] [] log log
+    ⟨[], rfl, rfl⟩ (LogRel.refl k log)
+  refine ⟨?_, h.2.1.symm, h.2.2⟩
+  obtain ⟨new, h1, h2⟩ := h.1
+  simp only [List.append_nil, shScan] at h1 h2
+  have e1 := congrArg List.reverse h1
+  have e2 := congrArg List.reverse h2
+  rw [List.reverse_reverse] at e1 e2
+  rw [e2, e1, List.map_reverse]
+
+open Model.Lexer Model.Chars Spec.Lexical in
+/-- … in particular for INSERTED whitespace: `ins` put anywhere into the separator `w₁ ++ w₂` -/
+theorem C08_ws_lengthening_insert (dia : Dialect) (w₁ ins w₂ : List WsAtom) (R : Str) (line col k : Nat) (lt lt' : TokType)
+    (pol : Policy) (log : List Report) (fuel : Nat)
+    (hok : ∀ a ∈ w₁ ++ ins ++ w₂, a.ok dia = true)
+    (hfit : linesFit col (renderWs (w₁ ++ w₂)) = true) (hfit' : linesFit col (renderWs (w₁ ++ ins ++ w₂)) = true)
+    (hfirst : afterWsOf lt = true ∨ ∀ b rest, w₁ ++ w₂ ≠ WsAtom.comment b :: rest)
+    (hfirst' : afterWsOf lt = true ∨ ∀ b rest, w₁ ++ ins ++ w₂ ≠ WsAtom.comment b :: rest)
+    (hne : (w₁ ++ w₂).isEmpty = false ∨ afterWsOf lt = true)
+    (hlt : afterWsOf lt' = true)
+    (hcol : (posAfter line col (renderWs (w₁ ++ ins ++ w₂))).2 = (posAfter line col (renderWs (w₁ ++ w₂))).2)
+    (hline : (posAfter line col (renderWs (w₁ ++ ins ++ w₂))).1 = (posAfter line col (renderWs (w₁ ++ w₂))).1 + k) :
+    (tokensLoop dia (polD k pol) (fuel + 1) ⟨renderWs (w₁ ++ ins ++ w₂) ++ R, line, col, lt⟩ [] log).1
+        = (tokensLoop dia pol (fuel + 1) ⟨renderWs (w₁ ++ w₂) ++ R, line, col, lt⟩ [] log).1.map (shTok k) := by
+  have hok1 : ∀ a ∈ w₁ ++ w₂, a.ok dia = true := by
+    intro a ha
+    apply hok a
+    simp only [List.mem_append] at ha ⊢
+    rcases ha with h | h
+    · exact Or.inl (Or.inl h)
+    · exact Or.inr h
+  have e1 : afterWsOf lt' = (afterWsOf lt || !(w₁ ++ w₂).isEmpty) := by
+    rw [hlt]; rcases hne with h | h <;> simp [h]
+  have e2 : afterWsOf lt' = (afterWsOf lt || !(w₁ ++ ins ++ w₂).isEmpty) := by
+    rw [hlt]
+    rcases hne with h | h
+    · have : (w₁ ++ ins ++ w₂).isEmpty = false := by
+        cases w₁ <;> cases ins <;> cases w₂ <;> simp_all
+      rw [this]; simp
+    · simp [h]
+  exact (C08_ws_lengthening dia (w₁ ++ w₂) (w₁ ++ ins ++ w₂) R line col k lt lt' pol log fuel hok1 hok hfit hfit' hfirst hfirst'
+    e1 e2 hcol hline).1
+
+open Model.Lexer Model.Chars Spec.Lexical in
+/-- … and for any chunking and terminator style of the two documents (composition with `C08_fold_any_chunking`): whatever
+    way the character source cuts the two files and however their terminators are spelled, the token streams are related
+    as above (separator at the start of the input; for a separator further down start from the state reached there). -/
+theorem C08_ws_lengthening_any_chunking (dia : Dialect) (w w' : List WsAtom) (R : Str) (k : Nat) (lt' : TokType)
+    (pol : Policy) (fuel : Nat)
+    (chunks chunks' : List Str) (counts counts' : List Nat)
+    (hne : ∀ c ∈ chunks, c ≠ []) (hne' : ∀ c ∈ chunks', c ≠ [])
+    (hc : ∀ n ∈ counts, 1 ≤ n) (hc' : ∀ n ∈ counts', 1 ≤ n)
+    (hlen : chunks.flatten.length ≤ counts.length) (hlen' : chunks'.flatten.length ≤ counts'.length)
+    (hdoc : normalizeEOL chunks.flatten = renderWs w ++ R) (hdoc' : normalizeEOL chunks'.flatten = renderWs w' ++ R)
+    (hok : ∀ a ∈ w, a.ok dia = true) (hok' : ∀ a ∈ w', a.ok dia = true)
+    (hfit : linesFit 0 (renderWs w) = true) (hfit' : linesFit 0 (renderWs w') = true)
+    (hlt : afterWsOf lt' = true)
+    (hcol : (posAfter 1 0 (renderWs w')).2 = (posAfter 1 0 (renderWs w)).2)
+    (hline : (posAfter 1 0 (renderWs w')).1 = (posAfter 1 0 (renderWs w)).1 + k) :
+    (tokensLoop dia (polD k pol) (fuel + 1) (Scan.init (seen counts' ⟨chunks'⟩)) [] []).1
+        = (tokensLoop dia pol (fuel + 1) (Scan.init (seen counts ⟨chunks⟩)) [] []).1.map (shTok k) := by
+  rw [C08_fold_any_chunking chunks counts hne hc hlen, C08_fold_any_chunking chunks' counts' hne' hc' hlen', hdoc, hdoc']
+  have haw : afterWsOf TokType.end_ = true := rfl
+  exact (C08_ws_lengthening dia w w' R 1 0 k .end_ lt' pol [] fuel hok hok' hfit hfit' (Or.inl haw) (Or.inl haw)
+    (by rw [hlt, haw]; rfl) (by rw [hlt, haw]; rfl) hcol hline).1
 
 -- non-vacuity -------------------------------------------------------------------------------------------------------
 -- the hypotheses of C08_fold_any_chunking on a concrete chunking that splits a CR LF pair and leaves a lone pending LF
@@ -171,6 +263,17 @@ example : admissible false [2, 0] [10, 10] = false ∧ normalizeEOL (respell [2,
 example : (makeRoom 4 ⟨[97, 98, 99, 100, 0, 0], 6, 4, 4, 1, 2⟩) = ⟨[98, 99, 100, 0, 0, 0, 0, 0, 0, 0, 0, 0], 12, 3, 3, 0, 1⟩ := by decide
 example : (makeRoom 5 ⟨[97, 98, 99, 100, 0, 0, 0, 0], 8, 4, 4, 2, 3⟩) = ⟨[99, 100, 99, 100, 0, 0, 0, 0], 8, 2, 2, 0, 1⟩ := by decide
 example : whichCase 4 ⟨[97, 98, 99, 100, 0, 0], 6, 4, 4, 4, 4⟩ = .reset := by decide
+-- whitespace lengthening: a separator `LF` replaced by `LF # x LF LF blank… no: LF #x LF LF` (two lines more, same column 0)
+open Model.Lexer Model.Chars Spec.Lexical in
+example :
+    let w : List WsAtom := [.eol]
+    let w' : List WsAtom := [.eol, .comment [32, 120], .eol, .blank 32, .eol]
+    (∀ a ∈ w', a.ok .cif2 = true) ∧ linesFit 0 (renderWs w') = true ∧
+    posAfter 1 0 (renderWs w) = (2, 0) ∧ posAfter 1 0 (renderWs w') = (5, 0) := by decide
+open Model.Lexer Model.Chars Spec.Lexical in
+example :
+    (tokensLoop .cif2 acceptAll 9 ⟨renderWs [.eol, .comment [32, 120], .eol, .blank 32, .eol] ++ a!"_a 'v'", 1, 0, .end_⟩ [] []).1
+      = (tokensLoop .cif2 acceptAll 9 ⟨renderWs [.eol] ++ a!"_a 'v'", 1, 0, .end_⟩ [] []).1.map (shTok 3) := by decide
 -- HANDLE_EOL on raw CR LF / CR / LF mixtures
 example : lineCount isEolDefault [10, 13, 10, 13, 13, 10, 32, 13] = 6 := by decide
 
